@@ -14,6 +14,7 @@ norms / linear-solve failures observed inside the real `solve` through `Drivers/
 re-evaluates `max|r|` on the real model after every converged return.
 -/
 import WntrModel.Lemmas.Newton
+import WntrModel.Lemmas.NewtonShape
 import WntrModel.Gen.NewtonShape
 import WntrModel.Model.RunLoop
 
@@ -67,11 +68,10 @@ theorem newton_terminates (empty : Bool) (x0 : X) :
     have := outer_evals wd o o.maxiter 0 _ (good_init wd o x0)
     simpa using this
 
-/-- **newton_failure_is_reported**: when the loop variables are bound before the loops (`zeroSafe`, fix
-C16-newton-zero-limits) -- or `MAXITER ≥ 1` and `BT_MAXITER ≥ 1` -- every exit is a returned triple; a triple that is
-not `converged` has status `error` and one of the four error messages. -/
-theorem newton_failure_is_reported (empty : Bool) (x0 : X)
-    (h : o.zeroSafe = true ∨ (1 ≤ o.maxiter ∧ 1 ≤ o.btMaxiter)) :
+/-- **newton_failure_is_reported**: for EVERY option set (MAXITER = 0 and BT_MAXITER = 0 included, since fix 14495b3c binds
+the loop variables) every exit is a returned triple; a triple that is not `converged` has status `error` and one of the
+four error messages. -/
+theorem newton_failure_is_reported (empty : Bool) (x0 : X) :
     (∃ m k, (solve wd o empty x0).1 = .ret .converged m k ∧ (m = .solved ∨ m = .noVars)) ∨
     (∃ m k, (solve wd o empty x0).1 = .ret .error m k ∧
       (m = .timeLimit ∨ m = .singular ∨ m = .lineSearch ∨ m = .maxIter)) := by
@@ -80,34 +80,18 @@ theorem newton_failure_is_reported (empty : Bool) (x0 : X)
   | true => exact Or.inl ⟨_, _, rfl, Or.inr rfl⟩
   | false =>
     simp only [Bool.false_eq_true, if_false]
-    rcases outer_reported wd o o.maxiter 0 _ (good_init wd o x0) with (⟨k, h'⟩ | ⟨m, k, h', hm⟩) | ⟨_, hz, hs⟩
+    rcases outer_reported wd o o.maxiter 0 _ (good_init wd o x0) with ⟨k, h'⟩ | ⟨m, k, h', hm⟩
     · exact Or.inl ⟨_, k, h', Or.inl rfl⟩
     · exact Or.inr ⟨m, k, h', hm⟩
-    · rcases h with h | h
-      · rw [hs] at h; cases h
-      · omega
 
-/-- the UnboundLocalError exists only in the variant without the bindings, and only for a zero limit -/
-theorem newton_crash_only_with_zero_limits (empty : Bool) (x0 : X) (h : (solve wd o empty x0).1 = .crash) :
-    (o.maxiter = 0 ∨ o.btMaxiter = 0) ∧ o.zeroSafe = false := by
-  unfold solve at h
-  cases empty with
-  | true => simp at h
-  | false =>
-    simp only [Bool.false_eq_true, if_false] at h
-    rcases outer_reported wd o o.maxiter 0 _ (good_init wd o x0) with (⟨k, h'⟩ | ⟨m, k, h', _⟩) | ⟨_, hz, hs⟩
-    · rw [h] at h'; cases h'
-    · rw [h] at h'; cases h'
-    · exact ⟨hz, hs⟩
-
-/-- the code does have that hole: `MAXITER = 0` dies at the final `return` (`outer_iter` unbound) -/
-theorem newton_crash_witness : (solve (traceWorld ⟨[some 1], [], none⟩)
-    { maxiter := 0, tol := 1, rho := 1/2, btMaxiter := 1, bt := true, btStartIter := 0, c1 := 0 } false 0).1 = .crash ∧
+/-- zero limits are reported failures: `MAXITER = 0` -> "Reached maximum number of iterations: 0";
+`BT_MAXITER = 0` -> "Line search failed" -/
+theorem newton_zero_limits_reported :
     (solve (traceWorld ⟨[some 1], [], none⟩)
-    { maxiter := 0, tol := 1, rho := 1/2, btMaxiter := 1, bt := true, btStartIter := 0, c1 := 0, zeroSafe := true } false 0).1 =
+      { maxiter := 0, tol := 1, rho := 1/2, btMaxiter := 1, bt := true, btStartIter := 0, c1 := 0 } false 0).1 =
       .ret .error .maxIter 0 ∧
     (solve (traceWorld ⟨[some 1], [], none⟩)
-    { maxiter := 2, tol := 1/2, rho := 1/2, btMaxiter := 0, bt := true, btStartIter := 0, c1 := 0, zeroSafe := true } false 0).1 =
+      { maxiter := 2, tol := 1/2, rho := 1/2, btMaxiter := 0, bt := true, btStartIter := 0, c1 := 0 } false 0).1 =
       .ret .error .lineSearch 0 := by
   decide +kernel
 
@@ -120,32 +104,32 @@ def toRunLoop : Outcome → Option Wntr.RunLoop.SolveOutcome
   | .ret .error .singular _ => some .singular
   | .ret .error .lineSearch _ => some .lineSearch
   | .ret .error _ _ => some .iterLimit
-  | .crash => none
 
 /-- **helper_newton_faithful**: through `_solver_helper` with `solver is NewtonSolver`, `run_sim` sees `solver_status == 0`
 exactly when `solve` returned status error, status 1 exactly when it returned converged, with the iteration count passed
-on; an UnboundLocalError is not swallowed -/
+on -/
 theorem helper_newton_faithful (sh : HelperShape) (out : Outcome) (sci : ScipyResult) :
     ((helper sh .newton out sci).failed = true ↔ ∃ m k, out = .ret .error m k) ∧
-    (∀ k, helper sh .newton out sci = .ret 1 (some k) ↔ ∃ m, out = .ret .converged m k) ∧
-    (helper sh .newton out sci = .unboundLocal ↔ out = .crash) := by
+    (∀ k, helper sh .newton out sci = .ret 1 (some k) ↔ ∃ m, out = .ret .converged m k) := by
   cases out with
-  | crash => simp [helper, Helper.failed]
   | ret st m k => cases st <;> simp [helper, Helper.failed]
 
 /-- **helper_scipy_failure_is_reported**: with the bare `except:` of the reference shape, whatever way a scipy nonlinear
 solver (or the `load_var_values_from_x` after it) fails, `_solver_helper` returns status 0 and `run_sim` sees a failed
-step; nothing escapes.  For `fsolve` only `ier != 1` is mapped (that branch has no `try`). -/
-theorem helper_scipy_failure_is_reported (out : Outcome) (sci : ScipyResult) :
-    ((helper refHelperShape .scipyOther out sci).failed = true ↔ sci ≠ .ok) ∧
-    helper refHelperShape .scipyOther out sci ≠ .escaped ∧
-    ((helper refHelperShape .fsolve out sci).failed = true ↔ sci = .notConverged) ∧
-    (helper refHelperShape .fsolve out sci = .escaped ↔ sci = .otherException) := by
+step; nothing escapes.  For `fsolve`, `ier != 1` is always mapped; an exception is mapped exactly when the branch is
+wrapped in a `try` that catches it (fix C16-fsolve-exception), otherwise it escapes from `run_sim`. -/
+theorem helper_scipy_failure_is_reported (fc : Option Catch) (out : Outcome) (sci : ScipyResult) :
+    ((helper (refHelperShape fc) .scipyOther out sci).failed = true ↔ sci ≠ .ok) ∧
+    helper (refHelperShape fc) .scipyOther out sci ≠ .escaped ∧
+    ((helper (refHelperShape fc) .fsolve out .notConverged).failed = true) ∧
+    (helper (refHelperShape (some .all)) .fsolve out sci ≠ .escaped ∧
+      ((helper (refHelperShape (some .all)) .fsolve out sci).failed = true ↔ sci ≠ .ok)) ∧
+    (helper (refHelperShape none) .fsolve out .otherException = .escaped) := by
   cases sci <;> simp [helper, Helper.failed, refHelperShape, Catch.catches]
 
 /-- a narrowed `except` clause lets other exceptions through (why the clause is part of the skeleton) -/
 theorem helper_narrow_catch_escapes (out : Outcome) :
-    helper { refHelperShape with scipyCatch := .only ["NoConvergence"] } .scipyOther out .otherException = .escaped := by
+    helper { refHelperShape none with scipyCatch := .only ["NoConvergence"] } .scipyOther out .otherException = .escaped := by
   simp [helper, Catch.catches]
 
 /-- **run_sim_accepts_only_small_residuals**: a step that `run_sim` treats as solved by the Newton solver
@@ -154,7 +138,6 @@ theorem run_sim_accepts_only_small_residuals (empty : Bool) (x0 : X) (sci : Scip
     (sh : HelperShape) (h : helper sh .newton (solve wd o empty x0).1 sci = .ret 1 k) :
     empty = true ∨ ∃ v, wd.norm (solve wd o empty x0).2.loaded = some v ∧ v < o.tol := by
   cases hs : (solve wd o empty x0).1 with
-  | crash => rw [hs] at h; simp [helper] at h
   | ret st m j =>
     cases st with
     | error => rw [hs] at h; simp [helper] at h
@@ -167,7 +150,6 @@ theorem run_sim_accepts_only_small_residuals (empty : Bool) (x0 : X) (sci : Scip
 theorem toRunLoop_ok (out : Outcome) (r : Wntr.RunLoop.SolveOutcome) (h : toRunLoop out = some r) :
     r.ok = true ↔ ∃ m k, out = .ret .converged m k := by
   cases out with
-  | crash => simp [toRunLoop] at h
   | ret st m k =>
     cases st <;> cases m <;> simp [toRunLoop] at h <;> subst h <;> simp [Wntr.RunLoop.SolveOutcome.ok]
 
@@ -175,33 +157,66 @@ theorem toRunLoop_ok (out : Outcome) (r : Wntr.RunLoop.SolveOutcome) (h : toRunL
 
 /-- the statements of `NewtonSolver.solve` (order, every `return` with its status and message, both `for` ranges, the
 `try/except MatrixRankWarning`, `break`, the decrease test, the exhaustion test) are those the model was written from -/
-theorem generated_newton_shape_is_ref : Gen.solveShape = refSolve Gen.defaults.zeroSafe := by decide
+theorem generated_newton_shape_is_ref : Gen.solveShape = refSolve := by decide
+
+/-- **the interpretation of the generated skeleton is the model** (`Lemmas/NewtonShape.lean` `solveS_ref` + the `decide`
+equality): the theorems above are about the program read off the current solvers.py -/
+theorem generated_solve_is_model (empty : Bool) (x0 : X) :
+    solveS Gen.solveShape wd o empty x0 = (some (solve wd o empty x0).1, (solve wd o empty x0).2) := by
+  rw [generated_newton_shape_is_ref]; exact solveS_ref wd o empty x0
+
+/-- `newton_converged_implies_small_residual` for the interpreted generated program -/
+theorem generated_converged_implies_small_residual (empty : Bool) (x0 : X) (msg : Msg) (k : Nat)
+    (h : (solveS Gen.solveShape wd o empty x0).1 = some (.ret .converged msg k)) :
+    (empty = true ∧ msg = .noVars ∧ k = 0) ∨
+    (empty = false ∧ msg = .solved ∧ ∃ v, wd.norm (solveS Gen.solveShape wd o empty x0).2.loaded = some v ∧ v < o.tol) := by
+  rw [generated_solve_is_model] at h ⊢
+  exact newton_converged_implies_small_residual wd o empty x0 msg k (Option.some.inj h)
+
+/-- `newton_failure_is_reported` + `newton_terminates` for the interpreted generated program: it always returns a triple
+(never falls off its end, never lets the MatrixRankWarning through), with the bounded number of residual evaluations -/
+theorem generated_always_returns (empty : Bool) (x0 : X) :
+    (∃ st m k, (solveS Gen.solveShape wd o empty x0).1 = some (.ret st m k) ∧
+      (st = .error → (m = .timeLimit ∨ m = .singular ∨ m = .lineSearch ∨ m = .maxIter))) ∧
+    (solveS Gen.solveShape wd o empty x0).2.nEval ≤ o.maxiter * (o.btMaxiter + 1) := by
+  rw [generated_solve_is_model]
+  refine ⟨?_, newton_terminates wd o empty x0⟩
+  rcases newton_failure_is_reported wd o empty x0 with ⟨m, k, h, _⟩ | ⟨m, k, h, hm⟩
+  · exact ⟨.converged, m, k, by rw [h], fun e => by cases e⟩
+  · exact ⟨.error, m, k, by rw [h], fun _ => hm⟩
 
 /-- the branches of `_solver_helper`, in particular WHICH exceptions of the scipy solvers are caught, are the reference ones -/
-theorem generated_helper_shape_is_ref : Gen.helperShape = refHelperShape := by decide
+theorem generated_helper_shape_is_ref : Gen.helperShape = refHelperShape Gen.helperShape.fsolveCatch := by decide
 
 /-- so for the helper read off the source every failure of a scipy nonlinear solver is a reported failed step -/
 theorem generated_helper_reports_scipy_failures (out : Outcome) (sci : ScipyResult) (h : sci ≠ .ok) :
     (helper Gen.helperShape .scipyOther out sci).failed = true := by
   rw [generated_helper_shape_is_ref]
-  exact (helper_scipy_failure_is_reported out sci).1.2 h
+  exact (helper_scipy_failure_is_reported _ out sci).1.2 h
+
+/-- once the fsolve branch is wrapped (`Gen.helperShape.fsolveCatch = some .all`), no failure of ANY supported solver escapes
+from `_solver_helper`: every one is a failed step for `run_sim` -/
+theorem generated_no_solver_failure_escapes (hw : Gen.helperShape.fsolveCatch = some .all) (kind : SolverKind)
+    (hk : kind ≠ .unknown) (out : Outcome) (sci : ScipyResult) :
+    helper Gen.helperShape kind out sci ≠ .escaped := by
+  rw [generated_helper_shape_is_ref, hw]
+  cases kind with
+  | newton => cases out with | ret st m k => cases st <;> simp [helper]
+  | fsolve => exact (helper_scipy_failure_is_reported (some .all) out sci).2.2.2.1.1
+  | scipyOther => exact (helper_scipy_failure_is_reported (some .all) out sci).2.1
+  | unknown => exact absurd rfl hk
 
 /-- the shipped defaults cannot hit the UnboundLocalError holes and have a positive tolerance -/
 theorem generated_defaults_safe : 1 ≤ Gen.defaults.maxiter ∧ 1 ≤ Gen.defaults.btMaxiter ∧ 0 < Gen.defaults.tol ∧
     0 < Gen.defaults.rho ∧ Gen.defaults.rho < 1 := by decide +kernel
 
-/-- once the source binds the loop variables (`Gen.defaults.zeroSafe`), `newton_failure_is_reported` holds for EVERY option
-set that differs from the defaults only in the user-settable fields -/
-theorem generated_failure_reported_unconditional (hz : Gen.defaults.zeroSafe = true) (o' : Opts)
-    (ho : o'.zeroSafe = Gen.defaults.zeroSafe) (empty : Bool) (x0 : X) :
-    (∃ m k, (solve wd o' empty x0).1 = .ret .converged m k ∧ (m = .solved ∨ m = .noVars)) ∨
-    (∃ m k, (solve wd o' empty x0).1 = .ret .error m k ∧
-      (m = .timeLimit ∨ m = .singular ∨ m = .lineSearch ∨ m = .maxIter)) :=
-  newton_failure_is_reported wd o' empty x0 (Or.inl (ho.trans hz))
-
 /-! ### non-vacuity (trace world: norms in evaluation order) -/
 
 def exOpts : Opts := { maxiter := 5, tol := 1/1000, rho := 1/2, btMaxiter := 3, bt := true, btStartIter := 0, c1 := 1/10000 }
+
+/-- the interpreter on the generated program computes the same result (here by evaluation) -/
+example : (solveS Gen.solveShape (traceWorld ⟨[some 1, some (1/2), some 1, some (1/10000)], [], none⟩) exOpts false 0).1 =
+    some (.ret .converged .solved 2) := by decide +kernel
 
 /-- converges after two accepted steps, the second one after one rejected trial -/
 example : (solve (traceWorld ⟨[some 1, some (1/2), some 1, some (1/10000)], [], none⟩) exOpts false 0).1 =
